@@ -3,7 +3,6 @@ from core import (strip_site, fmt, mentions, subexprs, dashmap_call, site_effect
 from storemodel import StoreModel
 from weight import WeightModel
 from tickermodel import TickerModel
-import c06
 import c10
 import c13
 
@@ -69,11 +68,13 @@ def run(ctx):
     ctx.check(sorted(api) == sorted(allowed) and len(allowed) <= 1, "R03.1", "no-caller-thread-removal",
               "on a caller's thread only shutdown() clears the store; no read, put, upsert, delete or statistics call removes an entry directly", detail=str(sorted(set(api) - set(allowed))))
 
-    # ---- R03.2 pressure (shared with C06) -------------------------------------------------------------
-    share(ctx, c06, {"R06.1": "R03.2", "R06.2": "R03.2"}, only=("admission-table", "evict-victim-only-under-pressure", "loop-guard", "victim-from-sample-min"))
-    # ---- R03.3 expiry (shared with C10) ------------------------------------------------------------------
-    share(ctx, c10, {"R10.2": "R03.3", "R10.7": "R03.3", "R10.5": "R03.4", "R10.1": "R03.3"}, only=("hook-iff-not-kept", "retain-iff-now-le-expiry", "sweeps-shard-of-now", "one-now-per-sweep",
-                                                                                 "release-and-hook-only-if-id-present", "ids-fresh", "insert-under-own-expiry", "move-old-to-new"))
+    # ---- R03.2 eviction only under memory pressure -------------------------------------------------------
+    pressure(ctx, M)
+    # ---- R03.3 / R03.4 expiry and id guard (the parts of C10 that are necessary for 'no spurious loss') --------
+    share(ctx, c10, {"R10.2": "R03.3", "R10.7": "R03.3", "R10.5": "R03.4"}, only=("hook-iff-not-kept", "retain-iff-now-le-expiry", "now-is-clock-now",
+                                                                    "release-and-hook-only-if-id-present", "ids-fresh"))
+    stale_entries(ctx, T)
+    no_overwrite(ctx, "R03.5")
     # ---- R03.6 the hooks remove by the key recorded with the released id ------------------------------------
     n_hooks = 0
     for name, f in F.fns.items():
@@ -96,3 +97,98 @@ def share(ctx, mod, rulemap, only):
     for o in sub.obligations:
         if o["rule"] in rulemap and any(x in o["key"] for x in only):
             ctx._add(o["status"], rulemap[o["rule"]], o["key"].split("|", 1)[1], o["desc"], o["where"], o["detail"])
+
+
+def linear(e):
+    """e as (base expr, constant offset) for e = base (+|-) const"""
+    if e[0] == "binop" and e[1] in ("Add", "Sub") and e[3][0] == "const" and isinstance(e[3][1], int):
+        b, c = linear(e[2])
+        return b, c + (e[3][1] if e[1] == "Add" else -e[3][1])
+    if e[0] == "binop" and e[1] == "Add" and e[2][0] == "const" and isinstance(e[2][1], int):
+        b, c = linear(e[3])
+        return b, c + e[2][1]
+    return e, 0
+
+
+def pressure(ctx, M):
+    """a victim's weight is released by the admission path only on an edge that implies available < incoming weight"""
+    from core import bool_branches, strip_site
+    F = ctx.facts
+    dec_fns = {s["fn"].name for s in M.dec_sites}
+    n = 0
+    for name, f in F.fns.items():
+        if f.kind == "Closure" or not f.rec.get("ret", "").endswith("CommandStatus"):
+            continue
+        dels = [(b, t) for b, t in f.calls() if t.get("rpath") in dec_fns]
+        if not dels:
+            continue
+        # the incoming weight: a `.weight` field of a parameter
+        for db, dt in dels:
+            n += 1
+            ok = False
+            why = "no dominating comparison of the available space with the incoming weight"
+            for b, expr, tt, ft in bool_branches(f):
+                if expr[0] != "binop" or expr[1] not in ("Lt", "Le"):
+                    continue
+                for (lhs, rhs, edge, strict) in ((expr[2], expr[3], tt, expr[1] == "Lt"),):
+                    lb, lc = linear(lhs)
+                    rb, rc = linear(rhs)
+                    is_w = rb[0] == "field" and rb[2] == "weight" and rb[1][0] == "param"
+                    if not is_w:
+                        continue
+                    # the left side must be derived from the space query for that weight (exactly, through a
+                    # parameter bound to it, or as a running estimate that mentions it): for C03 any such value is
+                    # evidence of pressure; whether the estimate is exact is C01/C06's concern
+                    members = lb[1] if lb[0] == "phi" else (lb,)
+                    derived = M.avail_ok(f, lb, rb) is not None or any(M.avail_ok(f, m, rb) is not None for m in members) or \
+                        any(M.avail_ok(f, x, rb) is not None for m in members for x in __import__("core").subexprs(m) if x[0] in ("field", "param"))
+                    if not derived:
+                        continue
+                    # lb + lc < rb + rc (or <=) must imply lb < rb
+                    implies = (lc >= rc) if strict else (lc > rc)
+                    if implies and f.edge_dominates((b, edge), db):
+                        ok = True
+                    elif f.edge_dominates((b, edge), db):
+                        why = "the guard %s does not imply available < weight" % __import__("core").fmt(expr)
+            ctx.check(ok, "R03.2", "%s|evict-only-under-pressure" % name,
+                      "on the admission path a resident key is released only on an edge implying available space < incoming weight (no eviction without memory pressure)", f.where(db), why if not ok else "")
+        # and the eviction function itself is entered only when the key does not fit
+        for g, bb, t in [(g, bb, t) for n2, g in F.fns.items() for bb, t in g.calls() if t.get("rpath") == name]:
+            w = None
+            for a in t["args"]:
+                o = g.op_origin(a)
+                if o[0] == "param" and "KeyDescription" in g.locals[o[1]]["ty"]:
+                    w = ("field", o, "weight")
+            fits = [(b, ft) for b, expr, tt, ft in bool_branches(g) if w is not None and M.is_query_field(expr, w, "1")]
+            ctx.check(bool(fits) and all(g.edge_dominates(e, bb) for e in fits), "R03.2", "%s|eviction-entered-only-when-not-fitting" % g.name,
+                      "the eviction loop is entered only after the space query reported that the incoming key does not fit", g.where(bb))
+    ctx.floor("R03.2", "victim release sites on the admission path", n, 1)
+
+
+def stale_entries(ctx, T):
+    """a TTL change must remove the (id, old expiry) index entry from the shard of the OLD expiry: a stale entry
+    carries the live key's id and would evict it when the old expiry comes due"""
+    from core import strip_site
+    F = ctx.facts
+    n = 0
+    for name in sorted(T.move_fns):
+        f = F.fn(name)
+        rem = [o for o in T.ops if o["fn"] is f and o["kind"] == "remove"]
+        ins = [o for o in T.ops if o["fn"] is f and o["kind"] == "insert"]
+        n += 1
+        ok = len(rem) == 1 and len(ins) == 1 and rem[0]["shard_arg"] is not None and ins[0]["shard_arg"] is not None and \
+            strip_site(rem[0]["shard_arg"]) != strip_site(ins[0]["args"][1]) and f.must_pass([0], [rem[0]["bb"]])
+        ctx.check(ok, "R03.3", "%s|old-index-entry-removed" % name,
+                  "changing a TTL removes the id from the shard of its previous expiry on every path (otherwise the stale entry later evicts the live key)", f.where())
+    ctx.floor("R03.3", "expiry-index move functions", n, 1)
+
+def no_overwrite(ctx, RULE):
+    """hooks remove store entries by key: that hits the right incarnation only if a store insert never overwrites
+    an existing entry (C05 R05.3)"""
+    import c05
+    sub = type(ctx)(ctx.prop, ctx.facts, ctx.tier, ctx.config)
+    c05.run(sub)
+    for o in sub.obligations:
+        if o["rule"] == "R05.3":
+            ctx._add(o["status"], RULE, o["key"].split("|", 1)[1],
+                     o["desc"] + " [needed here because the eviction/expiry hooks remove the store entry by key: an overwritten entry would make a stale id remove a newer incarnation]", o["where"], o["detail"])
